@@ -69,6 +69,10 @@ Check(r, idx) ==
                                                                              /\ \/ w.op \in {"set", "compute", "invalidate", "computeinv"}
                                                                                 \/ /\ w.op = "invalidateAll"
                                                                                    /\ \E a \in aevs : a.k = 1 /\ a.err = "Invalidation" /\ a.seq > w.seq /\ a.seq < y.seq}
+        \* F17: an explicit invalidation whose removal was published (its atomic handler returned, record "hret") after the
+        \* load had started, and the loaded value is in the cache nevertheless
+        hrets == {e \in ev : e.t = "hret" /\ e.k = 1 /\ e.err = "Invalidation"}
+        across == {x \in finRuns(1) : \E h \in hrets : enterSeq(x) < h.seq /\ h.seq < installSeq(x)}
         \* the last explicit set/compute that returned after every load was installed must be what the cache holds
         lastW == {w \in wcalls : w.op \in {"set", "compute"} /\ \A o \in ev : o.seq <= w.seq \/ o.g = w.g \/ o.t = "ret"}
         \* C11: scenarios without writers and without automatic removals, entry preloaded with 50
@@ -93,6 +97,7 @@ Check(r, idx) ==
     \o (IF invented # {} THEN <<F(idx, "C08.invented_result", invented)>> ELSE <<>>)
     \o (IF bulkMissing # {} THEN <<F(idx, "C08.bulk_result_missing", bulkMissing)>> ELSE <<>>)
     \o (IF joinBad # {} THEN <<F(idx, "C08.notfound_without_loader", joinBad)>> ELSE <<>>)
+    \o (IF across # {} THEN <<F(idx, "C09.install_across_invalidation", <<across, r.final>>)>> ELSE <<>>)
     \o (IF stale # {} THEN <<F(idx, "C09.stale_install", <<stale, r.final>>)>> ELSE <<>>)
     \o (IF \E w \in lastW : w.k = 1 /\ fin(1) # {w.v} THEN <<F(idx, "C09.write_lost", <<lastW, r.final>>)>> ELSE <<>>)
     \o (IF fin(1) \ (loadedVals(1) \cup writtenVals(1)) # {} THEN <<F(idx, "C09.invented_final", r.final)>> ELSE <<>>)
